@@ -14,7 +14,8 @@ for cfg in ('dbg', 'rel'):
     os.remove(p)
     print('primed', cfg, round(dt, 1), 's')
 if os.path.isdir('fixtures'):
-    p, dt = extract.extract_fixtures()
-    os.remove(p)
-    print('primed fixtures', round(dt, 1), 's')
+    for cfg in ('dbg', 'rel'):
+        p, dt = extract.extract_fixtures(cfg)
+        os.remove(p)
+        print('primed fixtures', cfg, round(dt, 1), 's')
 PY
